@@ -55,7 +55,12 @@ void __CPROVER_file_local_polyseed_c_write_str(char** pos, const char* str) {
     /* the phrase (plus terminator) must stay inside the public buffer size */
     if (off + len >= POLYSEED_STR_SIZE) W_overflow = true;
     VASSERT(off + len < POLYSEED_STR_SIZE, "C17 decomposed phrase is strictly shorter than the public phrase-buffer size");
-    if (off + len < POLYSEED_STR_SIZE) *pos += len; else *pos = W_base + POLYSEED_STR_SIZE - 1;
+#ifndef REPLAY
+    /* ... and than the library's own temporary, whatever size that has */
+    VASSERT((size_t)(off + len) < __CPROVER_OBJECT_SIZE(W_base), "C17 decomposed phrase stays inside the library's own temporary buffer");
+    if ((size_t)(off + len) >= __CPROVER_OBJECT_SIZE(W_base)) W_overflow = true;
+#endif
+    if (!W_overflow) *pos += len;
 #else
     **pos = (char)('A' + (k % 26));
     *pos += len;
@@ -81,7 +86,8 @@ static int wipes_whole(size_t n) {
     return c;
 }
 
-struct in_p2 { struct dep_in dep; struct seed_in s; uint8_t pad[13]; unsigned coin; bool compose; char out_prior[32]; unsigned mask; };
+struct in_p2 { struct dep_in dep; struct seed_in s; uint8_t pad[13]; unsigned coin; bool compose; char out_prior[32]; unsigned mask;
+    bool history; struct seed_in h_s; unsigned h_coin; };   /* an arbitrary earlier encoding of another seed */
 
 VF_DECL2(p2_layout, in_p2)
 void p2_layout(void) {
@@ -97,6 +103,15 @@ void p2_layout(void) {
     for (int i = 0; i < 32; ++i) d.secret[i] = i < 19 ? IN.s.secret[i] : IN.pad[i - 19];   /* padding arbitrary: must not matter */
     d0 = d;
     polyseed_str out;
+    if (IN.history) {
+        VASSUME(IN.h_s.birthday < 1024 && IN.h_s.features < 32 && IN.h_s.checksum < 2048 && (IN.h_s.secret[18] & 0xC0) == 0 && IN.h_coin < 2048);
+        polyseed_data hd;
+        hd.birthday = IN.h_s.birthday; hd.features = IN.h_s.features; hd.checksum = IN.h_s.checksum;
+        for (int i = 0; i < 32; ++i) hd.secret[i] = i < 19 ? IN.h_s.secret[i] : 0;
+        (void)polyseed_encode(&hd, &LNG, (polyseed_coin)IN.h_coin, out);
+        dep_reset_logs();
+        W_calls = 0; W_overflow = false;
+    }
     for (int i = 0; i < 32; ++i) out[i] = IN.out_prior[i];
     size_t r = polyseed_encode(&d, &LNG, (polyseed_coin)IN.coin, out);
 
